@@ -165,6 +165,18 @@ func replayMain(args []string) {
 	}
 	var v *Violation
 	var log []string
+	if rf.Violation.Clause == "hang" {
+		done := make(chan struct{})
+		go func() { e.Check(rf.Case); close(done) }()
+		select {
+		case <-done:
+			fmt.Printf("NOT-REPRODUCED property=%s: the case in %s terminates on this tree\n", rf.Property, args[0])
+			os.Exit(0)
+		case <-time.After(30 * time.Second):
+			fmt.Printf("REPRODUCED class=%s (still running after 30 s)\nVIOLATION property=%s replay=%s\n", rf.Class, rf.Property, args[0])
+			os.Exit(1)
+		}
+	}
 	if rf.Violation.Clause == "across-processes" {
 		self, _ := os.Executable()
 		v, log = crossProcessCheck(self, rf.Case, filepath.Dir(args[0]))
@@ -371,16 +383,19 @@ func checkMain(args []string) {
 	inconclusive := 0
 	var lines []string
 	var knownLines []string
+	if len(hangs) > 2 {
+		inconclusive += len(hangs) - 2 // confirmed two at a time at most: they usually share one cause
+		hangs = hangs[:2]
+	}
 	for _, h := range hangs {
 		if confirmHang(self, *prop, h, *scratch) {
-			h.V.Prop = "C13"
-			if *prop == "C13" {
-				path := writeReplay(*verif, *prop, *seed, *tier, h, h.Case, &h.V, nil)
-				lines = append(lines, fmt.Sprintf("VIOLATION property=%s replay=%s", *prop, path))
-				violations++
-			} else {
-				inconclusive++
-			}
+			// a process or call that never ends satisfies no property: it
+			// neither exits 0/1/2 nor returns a result or an error
+			h.V.Prop = *prop
+			path := writeReplay(*verif, *prop, *seed, *tier, h, h.Case, &h.V, nil)
+			fmt.Printf("  hang | %s\n", h.V.Detail)
+			lines = append(lines, fmt.Sprintf("VIOLATION property=%s replay=%s", *prop, path))
+			violations++
 		} else {
 			inconclusive++
 		}
@@ -510,18 +525,27 @@ func confirmHang(self, prop string, h *Found, scratch string) bool {
 	p := filepath.Join(scratch, "hang-case.json")
 	os.WriteFile(p, b, 0o644)
 	hung := 0
+	var mu sync.Mutex
+	var wg sync.WaitGroup
 	for i := 0; i < 2; i++ {
-		cmd := exec.Command(self, "replay", p)
-		done := make(chan struct{})
-		go func() { cmd.Run(); close(done) }()
-		select {
-		case <-done:
-		case <-time.After(40 * time.Second):
-			cmd.Process.Kill()
-			<-done
-			hung++
-		}
+		wg.Add(1)
+		go func() {
+			defer wg.Done()
+			cmd := exec.Command(self, "replay", p)
+			done := make(chan struct{})
+			go func() { cmd.Run(); close(done) }()
+			select {
+			case <-done:
+			case <-time.After(40 * time.Second):
+				cmd.Process.Kill()
+				<-done
+				mu.Lock()
+				hung++
+				mu.Unlock()
+			}
+		}()
 	}
+	wg.Wait()
 	return hung == 2
 }
 
